@@ -359,6 +359,20 @@ theorem C03_ok_needs_proof (s : Srv) (c : Nat) (ty : Ty) (k : CRef) (rr : RespRe
     subst d
     exact ⟨k0, nr, n, rfl, a, b, h4, f, g, hp⟩
 
+/-- **the identity bound is the identity proven.**  When a phase-2 request naming client `x` is answered with success,
+the connection it arrived on is authenticated as `x` — the client whose stored secret the response was verified against —
+whichever client the pending challenge had been requested for in phase 1 (phase 1 for B followed by phase 2 for A with
+A's key makes the connection A, never B). -/
+theorem C03_binds_proven_identity (s : Srv) (c : Nat) (ty : Ty) (x : Nat) (rr : RespRef)
+    (h : (step s (.hs c ty (.idx x) rr)).2 = .ok) :
+    pairOf ((step s (.hs c ty (.idx x) rr)).1.ctl c) = (true, some x) := by
+  have sp := stepCore_spec s (.hs c ty (.idx x) rr)
+  obtain ⟨c0, ty0, k0, rr0, he, _, _, hp, _⟩ := sp.rok h
+  simp only [Event.hs.injEq, CRef.idx.injEq] at he
+  obtain ⟨h1, _, h3, _⟩ := he
+  subst h1 h3
+  exact hp
+
 /-- **no response term authenticates a client whose stored secret is unusable.**  If the stored secret of client
 `x` is not a ciphertext that decrypts under the server's master key (sealed under another key, empty, or only the
 deprecated plaintext field), then NO handshake request naming `x` — whatever its response term: the empty key, the
@@ -581,6 +595,16 @@ example : holds hdr2 [.exp 0, .claim 0, .hs 0 .control (.idx 0) .none, .hs 0 .co
      ⟨.na, ⟨[none, none], [none, none], [false, false], [false, false]⟩⟩,
      ⟨.ch 0, ⟨[some ⟨false, none, some 0⟩, none], [none, none], [false, false], [false, false]⟩⟩,
      ⟨.ok, ⟨[some ⟨true, some 0, none⟩, none], [some 0, none], [false, false], [false, false]⟩⟩] = false := by decide
+
+/-- phase 1 naming B, phase 2 naming A with A's key: the connection becomes A -/
+example : ((run hdr2.init [.hs 0 .control (.idx 1) .none, .hs 0 .control (.idx 0) (.hmac 0 (.last 0))]).map
+    (fun o => (o.resp, o.st.conns, o.st.lookups))).getLast? =
+    some (.ok, [some ⟨true, some 0, none⟩, none], [some 0, none]) := by decide
+
+/-- the predicate rejects an observation in which that connection ends up as B -/
+example : holds hdr2 [.hs 0 .control (.idx 1) .none, .hs 0 .control (.idx 0) (.hmac 0 (.last 0))]
+    [⟨.ch 0, ⟨[some ⟨false, none, some 0⟩, none], [none, none], [false, false], [false, false]⟩⟩,
+     ⟨.ok, ⟨[some ⟨true, some 1, none⟩, none], [none, some 0], [false, false], [false, false]⟩⟩] = false := by decide
 
 /-- the predicate is not trivially true: an observation in which the replayed response is accepted is rejected -/
 example : holds hdr2 [.hs 0 .control (.idx 0) .none, .hs 0 .control (.idx 0) (.hmac 0 (.last 0)),
